@@ -539,7 +539,19 @@ def rule_Z2(prog, fixture=False):
             what = "%s in %s" % (x.text()[:60], f.short)
             extra = {"props": ["C05"]}
             if "?" in t or not re.fullmatch(r"(p:\w+|this\.\w+|l:\w+#\d+)", t):
-                continue          # computed divisors (sizes, products, std::abs(m)): not in this rule
+                # a computed divisor (win.size() - noverlap): linear constraint system of the program point (rules_bounds)
+                from .rules_bounds import nonzero_verdict
+                st, msg = nonzero_verdict(prog, f, x, x.c[1])
+                if st == "unk" and "outside the linear fragment" in msg:
+                    continue
+                n += 1
+                if st == "ok":
+                    res.add(key, DISCHARGED, where, what, msg, func=f.name, extra=extra)
+                elif st == "bad":
+                    res.add(key, VIOLATED, where, what, "integer division by zero (SIGFPE, not an exception): " + msg, func=f.name, extra=extra)
+                else:
+                    res.add(key, UNMODELLED, where, what, msg, func=f.name, extra=extra)
+                continue
             n += 1
             f.blocks
             st, msg, trail = ch.prove(f, x, ("cmp", t, (-INF, INF, 0)), [], 0, canon, [])
@@ -550,6 +562,13 @@ def rule_Z2(prog, fixture=False):
                         "integer division by zero (SIGFPE, not an exception): " + msg.replace("reaches the belief", "reaches the division, which needs")
                         .replace(", which is false for it", ""), func=f.name, extra=extra, path=trail)
             else:
-                res.add(key, UNMODELLED, where, what, msg[:200], func=f.name, extra=extra)
+                from .rules_bounds import nonzero_verdict
+                st2, msg2 = nonzero_verdict(prog, f, x, x.c[1])
+                if st2 == "ok":
+                    res.add(key, DISCHARGED, where, what, msg2, func=f.name, extra=extra)
+                elif st2 == "bad":
+                    res.add(key, VIOLATED, where, what, "integer division by zero (SIGFPE, not an exception): " + msg2, func=f.name, extra=extra)
+                else:
+                    res.add(key, UNMODELLED, where, what, msg[:200], func=f.name, extra=extra)
     res.stats["divisions_by_caller_values"] = n
     return res
